@@ -1,7 +1,7 @@
 (* C20 — linear_operator/utils/permutation.py *)
 From Coq Require Import List ZArith Bool Arith Lia.
 Import ListNotations.
-Require Import C20.Model C20.ProofsBase.
+Require Import C20.Model C20.ProofsBase C20.ProofsSparse C20.ProofsRepeat.
 
 (* ------------------------------------------------------------------------------------------ *)
 (* inverse_permutation: zeros_like(perm).scatter_(-1, perm, arange) *)
@@ -206,3 +206,126 @@ Qed.
 (* no permutation at all: the matrix itself *)
 Lemma apply_permutation_none M : apply_permutation M None None = Ok M.
 Proof. reflexivity. Qed.
+
+(* ---- broadcasting the k batch-index shapes (all ones except one position) gives (1, 1, batch...) ---- *)
+Lemma bs_ones_prefix q X Y :
+  broadcast_shapes (repeat 1 q ++ X) (repeat 1 q ++ Y) =
+  match broadcast_shapes X Y with Some r => Some (repeat 1 q ++ r) | None => None end.
+Proof.
+  induction q as [|q IH]; [simpl; destruct (broadcast_shapes X Y); reflexivity|].
+  cbn [repeat app broadcast_shapes]. rewrite IH. destruct (broadcast_shapes X Y); reflexivity.
+Qed.
+
+Lemma bs_ones_left Y : broadcast_shapes (repeat 1 (length Y)) Y = Some Y.
+Proof.
+  induction Y as [|y Y IH]; [reflexivity|]. cbn [length repeat broadcast_shapes]. rewrite IH.
+  destruct (Nat.eqb_spec 1 y) as [<-|]; reflexivity.
+Qed.
+
+Lemma bs_dim_one d A B r : broadcast_shapes A B = Some r -> broadcast_shapes (d :: A) (1 :: B) = Some (d :: r).
+Proof.
+  intros E. cbn [broadcast_shapes]. rewrite E. destruct (Nat.eqb_spec d 1) as [->|]; reflexivity.
+Qed.
+
+Lemma bs_one_dim d A B r : broadcast_shapes A B = Some r -> broadcast_shapes (1 :: A) (d :: B) = Some (d :: r).
+Proof.
+  intros E. cbn [broadcast_shapes]. rewrite E. destruct (Nat.eqb_spec 1 d) as [<-|]; reflexivity.
+Qed.
+
+Lemma upd_nth_ones p d t : upd_nth p d (repeat 1 (p + S t)) = repeat 1 p ++ d :: repeat 1 t.
+Proof. induction p as [|p IH]; [reflexivity|]. cbn [plus repeat upd_nth app]. rewrite IH. reflexivity. Qed.
+
+Lemma skipn_nth_cons {A} (l : list A) a d : a < length l -> skipn a l = nth a l d :: skipn (S a) l.
+Proof.
+  revert a; induction l as [|x l IH]; intros [|a] H; simpl in *; try lia; [reflexivity|]. apply IH. lia.
+Qed.
+
+Lemma batch_idx_shapes ncols nrows rbatch : forall m a, a + m = length rbatch ->
+  broadcast_all (map (fun pos => upd_nth pos (nth pos (ncols :: nrows :: rbatch) 0) (repeat 1 (length rbatch + 2)))
+                     (seq (2 + a) m))
+  = Some (if m =? 0 then [] else repeat 1 (2 + a) ++ skipn a rbatch).
+Proof.
+  induction m as [|m IH]; intros a Ha; [reflexivity|].
+  cbn [seq map broadcast_all]. change (S (2 + a)) with (2 + S a). rewrite (IH (S a)) by lia. clear IH.
+  change (nth (2 + a) (ncols :: nrows :: rbatch) 0) with (nth a rbatch 0).
+  replace (length rbatch + 2) with ((2 + a) + S m) by lia. rewrite upd_nth_ones.
+  rewrite (skipn_nth_cons rbatch a 0) by lia. cbn [Nat.eqb].
+  destruct m as [|m]; cbn [Nat.eqb].
+  - rewrite broadcast_shapes_nil_r. cbn [repeat]. rewrite skipn_all2 by lia. reflexivity.
+  - replace (repeat 1 (2 + S a)) with (repeat 1 (2 + a) ++ [1]) by (rewrite <- repeat_cons; reflexivity).
+    rewrite <- app_assoc. cbn [app]. rewrite bs_ones_prefix.
+    rewrite (bs_dim_one _ _ _ (skipn (S a) rbatch)); [reflexivity|].
+    replace (S m) with (length (skipn (S a) rbatch)) by (rewrite skipn_length; lia). apply bs_ones_left.
+Qed.
+
+Lemma bidx_all_lt pos d n : pos < n ->
+  all_lt (mkT (upd_nth pos d (repeat 1 n)) (fun ix => Z.of_nat (nth pos ix 0))) d = true.
+Proof.
+  intros Hp. apply all_lt_spec. cbn [tshape tat]. intros ix Hv. apply valid_nth in Hv.
+  rewrite length_upd_nth', repeat_length in Hv. destruct Hv as [_ Hv]. specialize (Hv pos Hp).
+  rewrite nth_upd_nth, Nat.eqb_refl, repeat_length in Hv.
+  replace (pos <? n) with true in Hv by (symmetry; apply Nat.ltb_lt; lia). cbn [andb] in Hv. lia.
+Qed.
+
+Lemma bidx_forallb ncols nrows rbatch : forall l a, l = skipn a rbatch -> a + length l = length rbatch ->
+  forallb (fun p : tensor * nat => all_lt (fst p) (snd p))
+    (combine (map (fun pos => mkT (upd_nth pos (nth pos (ncols :: nrows :: rbatch) 0) (repeat 1 (length rbatch + 2)))
+                                  (fun ix => Z.of_nat (nth pos ix 0))) (seq (2 + a) (length l))) l) = true.
+Proof.
+  induction l as [|d l IH]; intros a Hl Hlen; [reflexivity|].
+  cbn [length seq map combine forallb fst snd]. simpl in Hlen.
+  rewrite (skipn_nth_cons rbatch a 0) in Hl by lia. inversion Hl as [[Hd Hl']].
+  change (nth (2 + a) (ncols :: nrows :: rbatch) 0) with (nth a rbatch 0).
+  rewrite bidx_all_lt by lia. cbn [andb]. change (S (2 + a)) with (2 + S a). rewrite <- Hl'. apply IH; [exact Hl'|lia].
+Qed.
+
+(* apply_permutation is total on in-range (partial) permutations whose batch shapes broadcast; the result shape *)
+Lemma apply_permutation_total M left right ncols nrows rbatch kl pbl kr pbr ob1 ob :
+  tshape M = ncols :: nrows :: rbatch ->
+  (left <> None \/ right <> None) ->
+  let L := perm_or_arange left nrows in let R := perm_or_arange right ncols in
+  tshape L = kl :: pbl -> tshape R = kr :: pbr ->
+  (forall ix, valid ix (kl :: pbl) -> (0 <= tat L ix < Z.of_nat nrows)%Z) ->
+  (forall ix, valid ix (kr :: pbr) -> (0 <= tat R ix < Z.of_nat ncols)%Z) ->
+  broadcast_shapes pbl rbatch = Some ob1 -> broadcast_shapes pbr ob1 = Some ob ->
+  exists out, apply_permutation M left right = Ok out /\ tshape out = kr :: kl :: ob.
+Proof.
+  intros HM Hsome L R Hl Hr HLr HRr Hb1 Hb2. unfold apply_permutation. rewrite HM.
+  assert (E0 : forall X : result tensor,
+     match left, right with None, None => Ok M | _, _ => X end = X).
+  { intros X. destruct left, right; try reflexivity. destruct Hsome; congruence. }
+  rewrite E0. clear E0.
+  change (match left with Some l => l | None => arange nrows end) with L.
+  change (match right with Some r => r | None => arange ncols end) with R.
+  unfold ndim. rewrite Hl, Hr. cbn [length Nat.eqb orb].
+  unfold adv_index. cbn [length]. rewrite map_length, seq_length. unfold ndim. rewrite HM. cbn [length].
+  rewrite Nat.eqb_refl. cbn [negb map].
+  set (k := length rbatch).
+  pose proof (batch_idx_shapes ncols nrows rbatch k 0 ltac:(unfold k; lia)) as HBA.
+  rewrite map_map. cbn [tshape].
+  change (2 + 0) with 2 in HBA. fold k in HBA.
+  assert (Hsh : broadcast_all (tshape (unsqueeze1 R) :: tshape (unsqueeze0 L) ::
+             map (fun pos => upd_nth pos (nth pos (ncols :: nrows :: rbatch) 0) (repeat 1 (k + 2))) (seq 2 k))
+             = Some (kr :: kl :: ob)).
+  { cbn [broadcast_all]. rewrite HBA. unfold unsqueeze1, unsqueeze0. cbn [tshape]. rewrite Hl, Hr.
+    destruct (Nat.eqb_spec k 0) as [Hk0|Hk0].
+    - assert (rbatch = []) by (destruct rbatch; [reflexivity|unfold k in Hk0; simpl in Hk0; lia]). subst rbatch.
+      rewrite broadcast_shapes_nil_r in Hb1. inversion Hb1; subst ob1.
+      rewrite broadcast_shapes_nil_r.
+      apply bs_dim_one. apply bs_one_dim. exact Hb2.
+    - cbn [repeat app skipn plus].
+      rewrite (bs_one_dim 1 (kl :: pbl) (1 :: rbatch) (kl :: ob1)) by (apply bs_dim_one; exact Hb1).
+      apply bs_dim_one. apply bs_one_dim. exact Hb2. }
+  match goal with |- context [broadcast_all ?l] => replace (broadcast_all l) with (Some (kr :: kl :: ob)) by (symmetry; exact Hsh) end.
+  assert (Hchk : forallb (fun p : tensor * nat => all_lt (fst p) (snd p))
+              (combine (unsqueeze1 R :: unsqueeze0 L ::
+                 map (fun pos => mkT (upd_nth pos (nth pos (ncols :: nrows :: rbatch) 0) (repeat 1 (k + 2)))
+                                     (fun ix => Z.of_nat (nth pos ix 0))) (seq 2 k)) (ncols :: nrows :: rbatch)) = true).
+  { cbn [combine forallb fst snd]. apply andb_true_iff. split; [|apply andb_true_iff; split].
+    - apply all_lt_spec. unfold unsqueeze1. cbn [tshape tat]. rewrite Hr. intros ix Hv.
+      destruct ix as [|j [|x b]]; simpl in Hv; try tauto. apply HRr. simpl. tauto.
+    - apply all_lt_spec. unfold unsqueeze0. cbn [tshape tat]. rewrite Hl. intros ix Hv.
+      destruct ix as [|x b]; simpl in Hv; try tauto. apply HLr. simpl. tauto.
+    - exact (bidx_forallb ncols nrows rbatch rbatch 0 eq_refl eq_refl). }
+  rewrite Hchk. cbn [negb]. eexists. split; reflexivity.
+Qed.
